@@ -136,10 +136,19 @@ def run_case(ctx, case, count_only=False):
 
 
 PAIRS = [('ok', 'ok'), ('ok', 'crash'), ('badjson', 'badjson'), ('form', 'ok'), ('notfound', 'notfound_json'), ('gen', 'raised'), ('badchunk', 'oversized'),
-         ('cookie_then_abort', 'ok'), ('wrongverb', 'ok_json_accept'), ('crash', 'notfound'), ('oversized', 'oversized'), ('form', 'form')]
+         ('cookie_then_abort', 'ok'), ('wrongverb', 'ok_json_accept'), ('crash', 'notfound'), ('oversized', 'oversized'), ('form', 'form'),
+         ('rex', 'rex'), ('expires', 'expires'), ('typed', 'typed'), ('signed', 'signed'), ('status_str', 'status_int'), ('urlinfo', 'auth'), ('longpath', 'ok'),
+         ('raised', 'raised'), ('gen', 'gen'), ('head_ok', 'ok')]
+
+def _reqs():
+    anyk = st.lists(st.tuples(st.sampled_from(S.KINDS), st.integers(0, 30)).map(list), min_size=2, max_size=3)
+    # half of the cases: all threads serve the same kind of request with different data (they meet in the same code)
+    same = st.tuples(st.sampled_from(S.KINDS), st.lists(st.integers(0, 30), min_size=2, max_size=3, unique=True)).map(lambda t: [[t[0], n] for n in t[1]])
+    return st.one_of(anyk, same)
+
 
 CASE = st.fixed_dictionaries({
-    'reqs': st.lists(st.tuples(st.sampled_from(S.KINDS), st.integers(0, 30)).map(list), min_size=2, max_size=3),
+    'reqs': _reqs(),
     'debug': st.sampled_from([False, False, True]),
     'schedule': st.lists(st.tuples(st.integers(0, 2), st.one_of(st.integers(1, 12), st.integers(1, 80), st.integers(50, 400))).map(list), min_size=2, max_size=40),
 })
@@ -154,8 +163,8 @@ def run(ctx):
         ctx.guarded(check_case, case)
         ctx.count('corpus')
     # exhaustive single-preemption schedules for the scenario pairs of this shard
-    npairs = len(PAIRS) if ctx.tier == 'thorough' else 8
-    stride = 1 if ctx.tier == 'thorough' else 2
+    npairs = len(PAIRS)
+    stride = 1
     for pi, (a, b) in enumerate(PAIRS[:npairs]):
         if pi % max(1, ctx.nshards) != ctx.shard % max(1, ctx.nshards):
             continue
